@@ -333,7 +333,11 @@ def contentLen (s : State) (c : String) : Nat :=
   else if c.startsWith "R(" then
     match s.resps.find? (·.1 = c) with
     | some (_, ds) => respSize ds
-    | none => c.length
+    | none =>
+      -- a document of this shape that only a client has pushed (a "twin" of a response the registry has not built here)
+      match s.defs.find? (·.1 = c) with
+      | some (_, b) => b.len
+      | none => c.length
   else c.utf8ByteSize
 
 /-! ### byte ranges (`http.ServeContent`, single range) -/
